@@ -54,7 +54,7 @@ const KeyHeartbeatPanic = "C14/heartbeat-panics-after-tombstone-removed"
 func init() {
 	quiet()
 	vkit.Register("lifecycle", vkit.N{Quick: 2400, Thorough: 40000}, genCase, runCase)
-	vkit.Register("race", vkit.N{Quick: 320, Thorough: 8000}, genRace, runRace)
+	vkit.Register("race", vkit.N{Quick: 640, Thorough: 12000}, genRace, runRace)
 	vkit.Register("grpc", vkit.N{Quick: 80, Thorough: 2400}, genGrpc, runGrpc)
 }
 
